@@ -262,10 +262,30 @@ pub struct ReplayFile<S> {
 	pub run: u64,
 	pub expect_kind: String,
 	pub detail: String,
+	/// "shipping" when the violation was found by the binary built without debug assertions and overflow checks
+	/// (`./check --replay` then uses that binary)
+	#[serde(default, skip_serializing_if = "Option::is_none")]
+	pub lane: Option<String>,
 	pub scenario: S,
 }
 
+/// `Some("shipping")` in the second lane (harness and crate built like a release of the crate: no debug assertions,
+/// wrapping arithmetic), `None` in the main lane (debug assertions and overflow checks on)
+pub fn lane() -> Option<String> {
+	std::env::var("VERIF_LANE").ok().filter(|s| !s.is_empty())
+}
+
 pub fn seed_from_env() -> u64 {
+	let s = base_seed_from_env();
+	// the second lane runs on another scenario stream derived from the same VERIF_SEED
+	if lane().is_some() && std::env::var("VERIF_SEED_IS_DERIVED").is_err() {
+		s ^ 0x5348_4950_5049_4e47
+	} else {
+		s
+	}
+}
+
+fn base_seed_from_env() -> u64 {
 	match std::env::var("VERIF_SEED") {
 		Ok(s) if !s.trim().is_empty() => s.trim().parse::<u64>().unwrap_or_else(|_| {
 			// accept negative / large ints by hashing the text
@@ -360,8 +380,9 @@ pub fn run_check<P: Prop>(p: &P, tier: Tier) -> i32 {
 				let mut code = 2;
 				for run in runs {
 					let scn = generate(p, seed, tier, run);
-					let path = replay_dir.join(format!("{}-{}-{}.json", p.id(), seed, run));
+					let path = replay_dir.join(format!("{}-{}-{}{}.json", p.id(), seed, run, lane().map_or(String::new(), |l| format!("-{l}"))));
 					let rf = ReplayFile {
+						lane: lane(),
 						property: p.id().to_string(),
 						seed,
 						run,
@@ -412,6 +433,8 @@ fn run_check_inner<P: Prop>(p: &P, tier: Tier) -> i32 {
 	let slot_file: Option<std::fs::File> = std::env::var("AVROSIM_SLOTS").ok().and_then(|p| std::fs::OpenOptions::new().write(true).open(p).ok());
 	let slot_file = &slot_file;
 	let (runs, wall_cap) = p.budget(tier);
+	// the second lane explores other scenarios (another stream derived from the same VERIF_SEED) at a quarter of the budget
+	let (runs, wall_cap) = if lane().is_some() { ((runs / 4).max(1), (wall_cap / 2).max(30)) } else { (runs, wall_cap) };
 	let runs = std::env::var("VERIF_RUNS").ok().and_then(|s| s.parse().ok()).unwrap_or(runs);
 	let t0 = Instant::now();
 	println!(
@@ -600,8 +623,9 @@ fn run_check_inner<P: Prop>(p: &P, tier: Tier) -> i32 {
 			exec_caught(p, &min).violation.as_ref().map(|v| v.detail.clone()).unwrap_or_default()
 		};
 		let run_label = if f.run > u64::MAX / 2 { format!("corpus{}", u64::MAX - f.run) } else { f.run.to_string() };
-		let path = replay_dir.join(format!("{}-{}-{}.json", p.id(), seed, run_label));
+		let path = replay_dir.join(format!("{}-{}-{}{}.json", p.id(), seed, run_label, lane().map_or(String::new(), |l| format!("-{l}"))));
 		let rf = ReplayFile {
+						lane: lane(),
 			property: p.id().to_string(),
 			seed,
 			run: f.run,
@@ -682,6 +706,23 @@ fn run_check_inner<P: Prop>(p: &P, tier: Tier) -> i32 {
 	let ev_dir = verif_root().join("evidence");
 	let _ = std::fs::create_dir_all(&ev_dir);
 	let ev_path = ev_dir.join(format!("{}.json", p.id()));
+	// the second lane adds its summary to the evidence the main lane has just written
+	let evidence = match lane() {
+		None => evidence,
+		Some(l) => {
+			let mut main: Value = std::fs::read_to_string(&ev_path).ok().and_then(|t| parse_deep(&t).ok()).unwrap_or_else(|| json!({"property_id": p.id(), "tier": tier.name(), "seed": seed, "level": p.level(), "wall_s": 0.0, "violations": 0, "coverage": {"evaluations": 1, "distinct_nontrivial": 0, "rule": p.rule(), "exhaustive": false}, "assumptions": p.assumptions()}));
+			let cov = &evidence["coverage"];
+			main["coverage"]["second_lane"] = json!({
+				"lane": l,
+				"what": "the same check, harness and crate built the way the crate ships (no debug assertions, wrapping arithmetic), on another scenario stream derived from the same seed, at a quarter of the budget",
+				"scenarios": cov["scenarios"], "evaluations": cov["evaluations"], "distinct_nontrivial": cov["distinct_nontrivial"],
+				"simulated_io_steps": cov["simulated_io_steps"], "wall_s": wall, "violations_reported": cov["violations_reported"],
+			});
+			let v = main["violations"].as_u64().unwrap_or(0) + reported.len() as u64;
+			main["violations"] = json!(v);
+			main
+		}
+	};
 	if let Err(e) = std::fs::write(&ev_path, serde_json::to_string_pretty(&evidence).unwrap()) {
 		eprintln!("HARNESS-ERROR: cannot write evidence: {e}");
 		return 2;
@@ -784,6 +825,7 @@ fn cross_process_digests(id: &str, tier: Tier, seed: u64, count: u64) -> Result<
 	let out = std::process::Command::new(self_exe())
 		.args(["digest", id, tier.name(), &count.to_string()])
 		.env("VERIF_SEED", seed.to_string())
+			.env("VERIF_SEED_IS_DERIVED", "1")
 		.env("VERIF_WORKERS", "3")
 		.output()
 		.map_err(|e| e.to_string())?;
@@ -1039,6 +1081,7 @@ fn run_isolated<P: Prop>(
 				&inflight.display().to_string(),
 			])
 			.env("VERIF_SEED", seed.to_string())
+			.env("VERIF_SEED_IS_DERIVED", "1")
 			.env("VERIF_WORKER_WALL", wall_cap.to_string())
 			.stdout(std::process::Stdio::piped())
 			.stderr(std::process::Stdio::piped())
@@ -1142,9 +1185,10 @@ fn report_hang<P: Prop>(p: &P, seed: u64, tier: Tier, run: u64) -> ! {
 	let scn = generate(p, seed, tier, run);
 	let replay_dir = verif_root().join("replays");
 	let _ = std::fs::create_dir_all(&replay_dir);
-	let path = replay_dir.join(format!("{}-{}-{}.json", p.id(), seed, run));
+	let path = replay_dir.join(format!("{}-{}-{}{}.json", p.id(), seed, run, lane().map_or(String::new(), |l| format!("-{l}"))));
 	let kind = "process-killed:hang".to_string();
 	let rf = ReplayFile {
+						lane: lane(),
 		property: p.id().to_string(),
 		seed,
 		run,
